@@ -118,3 +118,14 @@ Proof.
     intros r Hr. destruct (xor_accZ_bits r false) as [F L]. split; [now rewrite L|exact F].
   - exact Hw.
 Qed.
+
+(* ---------- the round trip, stated about the source's own functions ---------- *)
+From TF Require Import GridProofs.
+Theorem src_gray_roundtrip m : Forall (fun r => r <> []) m ->
+  map bz (py_gray_to_bit (py_bit_to_gray m)) = map bz m.
+Proof.
+  intro H. rewrite code_gray_to_bit.
+  rewrite <- (map_map bz gray_to_bits), (code_bit_to_gray m H), map_map.
+  transitivity (map (fun r => bz r) m); [|apply map_ext; reflexivity].
+  apply map_ext. intro r. apply gray_to_bits_to_gray.
+Qed.
